@@ -1,9 +1,10 @@
 /-
   C15 — keyspace (API v2) codec: transparency (round trip, order and range isomorphism), isolation
-  (disjoint keyspaces, clipping of foreign regions), region keys, and the command catalogue.
-  All theorems are about `Model/ApiV2.lean`; the tie to /repo is the differential + the regenerated catalogue.
+  (disjoint keyspaces, clipping of foreign regions), region keys (order, ranges, buckets), the command catalogue,
+  the per-field walker lifted over every catalogue row, and transparency / isolation against an abstract shared store.
+  All theorems are about `Model/ApiV2*.lean`; the tie to /repo is the differential + the regenerated catalogue.
 -/
-import ClientGoVerif.Proofs.ApiV2
+import ClientGoVerif.Proofs.ApiV2Store
 import ClientGoVerif.Generated.CodecCatalogue
 namespace CGV.Props.C15
 open CGV CGV.Codec CGV.ApiV2 CGV.ApiV2.Lemmas CGV.ApiV2.Cat
@@ -318,7 +319,7 @@ theorem region_key_roundtrip (ks : Keyspace) (hv : ks.valid = true) (k s e : Byt
     decodeRegionKey ks (encodeRegionKey ks k) = .ok k ∧
     decodeRegionRange ks (encodeRegionRange ks s e).1 (encodeRegionRange ks s e).2 = .ok (s, e) := by
   constructor
-  · simp [decodeRegionKey, encodeRegionKey, memDecode, decode_encode_bytes, decode_encode_key]
+  · simp [decodeRegionKey, encodeRegionKey, memDecode, decode_encode_bytes_nil, decode_encode_key]
   · have hne1 : (encodeBytes (encodeKey ks s)).isEmpty = false := by
       cases h : encodeBytes (encodeKey ks s) with
       | nil => exact absurd h (encodeBytes_ne_nil _)
@@ -329,7 +330,7 @@ theorem region_key_roundtrip (ks : Keyspace) (hv : ks.valid = true) (k s e : Byt
       | nil => exact absurd h (encodeBytes_ne_nil _)
       | cons c cs => rfl
     simp only [encodeRegionRange, encodeRangeFwd, decodeRegionRange, hne2, Bool.false_eq_true, if_false, memDecode,
-      decode_encode_bytes]
+      decode_encode_bytes_nil]
     have hpre : Bytes.isPrefix ks.pfx (encodeKey ks s) = true := isPrefix_append _ _
     have hdrop : ∀ x, (encodeKey ks x).drop ks.pfx.length = x := by intro x; simp [encodeKey]
     cases he : e.isEmpty with
@@ -360,11 +361,226 @@ theorem region_key_roundtrip (ks : Keyspace) (hv : ks.valid = true) (k s e : Byt
       simp only [encodeKey] at h1 h2 h3 hpre hdrop
       simp [decodeRange, h1, h2, h3, hpre, hdrop, isPrefix_append, encodeKey]
 
-/-- NOT PROVED (full statement kept per convention): region keys preserve the logical order, i.e. the memcomparable
-    encoding is monotone — this is C19's `encodeBytes` order theorem composed with `encode_order_iso`; here it is only
-    validated by the `ord` property op on both sides. -/
-def region_key_order_iso : Prop :=
-  ∀ (ks : Keyspace) (a b : Bytes), Bytes.cmp (encodeRegionKey ks a) (encodeRegionKey ks b) = Bytes.cmp a b
+/-! ## region keys: order, ranges, the keyspace end as the next keyspace's prefix -/
+
+/-- region keys (memcomparable(prefix ++ key)) preserve the logical order, three-way, for every keyspace -/
+theorem region_key_order_iso (ks : Keyspace) (a b : Bytes) :
+    Bytes.cmp (encodeRegionKey ks a) (encodeRegionKey ks b) = Bytes.cmp a b := by
+  simp only [encodeRegionKey, encodeBytes_cmp, encodeKey]
+  exact cmp_append_left ks.pfx a b
+
+/-- `k1 < k2 ↔ encodeRegionKey k1 < encodeRegionKey k2` (and the same for `≤`) -/
+theorem region_key_lt_iff (ks : Keyspace) (a b : Bytes) :
+    (Bytes.lt (encodeRegionKey ks a) (encodeRegionKey ks b) = true ↔ Bytes.lt a b = true) ∧
+    (Bytes.le (encodeRegionKey ks a) (encodeRegionKey ks b) = true ↔ Bytes.le a b = true) := by
+  simp [Bytes.lt, Bytes.le, region_key_order_iso]
+
+/-- logical range (empty end = unbounded) ↔ plain interval of region keys, towards PD; the unbounded end becomes
+    the region key of the keyspace end -/
+theorem region_range_iso (ks : Keyspace) (hv : ks.valid = true) (k s e : Bytes) :
+    inInterval (encodeRegionKey ks k) (encodeRegionRange ks s e).1 (encodeRegionRange ks s e).2 = inRange k s e := by
+  have h := encode_order_iso_range ks hv k s e
+  rw [← h]
+  simp only [encodeRegionRange, encodeRange, encodeRegionKey, inInterval, Bytes.le, Bytes.lt, encodeBytes_cmp,
+    Bool.false_eq_true, if_false]
+
+/-- containment the other way: a (well-formed) key whose region key lies inside the encoded region range is a key
+    of this keyspace inside the logical range -/
+theorem region_range_within_keyspace (ks : Keyspace) (hv : ks.valid = true) (y s e : Bytes)
+    (hy : Gen.keyspacePrefixLen ≤ y.length)
+    (h : inInterval (encodeBytes y) (encodeRegionRange ks s e).1 (encodeRegionRange ks s e).2 = true) :
+    ∃ k, y = encodeKey ks k ∧ inRange k s e = true := by
+  apply encode_range_within_keyspace ks hv y s e hy
+  rw [← h]
+  simp only [encodeRegionRange, encodeRange, inInterval, Bytes.le, Bytes.lt, encodeBytes_cmp, Bool.false_eq_true,
+    if_false]
+
+/-- the end of a keyspace IS the prefix of the next keyspace id (same mode): an unbounded logical end is sent as
+    the next keyspace's first possible key, plain and in region form -/
+theorem keyspace_end_is_next_prefix (ks : Keyspace) (h : ks.id < Gen.maxKeyspaceID) (s : Bytes) :
+    ks.endKey = (Keyspace.mk ks.mode (ks.id + 1)).pfx ∧
+    (encodeRange ks s [] false).2 = encodeKey (Keyspace.mk ks.mode (ks.id + 1)) [] ∧
+    (encodeRegionRange ks s []).2 = encodeRegionKey (Keyspace.mk ks.mode (ks.id + 1)) [] := by
+  have h1 := endKey_eq_next_pfx ks h
+  refine ⟨h1, ?_, ?_⟩
+  · simp [encodeRange, encodeRangeFwd, encodeKey, h1]
+  · simp [encodeRegionRange, encodeRangeFwd, encodeRegionKey, encodeKey, h1]
+
+example : (⟨.txn, 255⟩ : Keyspace).id < Gen.maxKeyspaceID := by decide
+
+/-- the last keyspace id: its end is the first byte string of the next mode byte, which no keyspace of either
+    mode contains (covered by `keyspaces_disjoint`); here: it is not a key of the keyspace and above all of them -/
+theorem keyspace_end_above_all_keys (ks : Keyspace) (hv : ks.valid = true) (k : Bytes) :
+    Bytes.lt (encodeKey ks k) ks.endKey = true ∧ Bytes.lt (encodeRegionKey ks k) (encodeBytes ks.endKey) = true ∧
+    Bytes.isPrefix ks.pfx ks.endKey = false := by
+  refine ⟨?_, ?_, not_prefix_end ks hv⟩
+  · simp [Bytes.lt, encodeKey, enc_lt_end ks hv k]
+  · simp [Bytes.lt, encodeRegionKey, encodeBytes_cmp, encodeKey, enc_lt_end ks hv k]
+
+/-- region-key intervals of different keyspaces are disjoint as well (what PD's region tree sees) -/
+theorem region_keyspaces_disjoint (a b : Keyspace) (ha : a.valid = true) (hb : b.valid = true) (hne : a ≠ b) (x : Bytes) :
+    ¬ (inInterval x (encodeBytes a.pfx) (encodeBytes a.endKey) = true ∧
+       inInterval x (encodeBytes b.pfx) (encodeBytes b.endKey) = true) := by
+  have sep : ∀ (p q : Keyspace), p.valid = true → p.pfxVal < q.pfxVal →
+      ¬ (inInterval x (encodeBytes p.pfx) (encodeBytes p.endKey) = true ∧
+         inInterval x (encodeBytes q.pfx) (encodeBytes q.endKey) = true) := by
+    intro p q hp hlt ⟨h1, h2⟩
+    simp only [inInterval, Bool.and_eq_true, Bytes.le, Bytes.lt, bne_iff_ne, beq_iff_eq] at h1 h2
+    have hle : Bytes.cmp (encodeBytes p.endKey) (encodeBytes q.pfx) ≠ .gt := by
+      rw [encodeBytes_cmp]; exact end_le_pfx_of_lt hp hlt
+    have h3 : Bytes.cmp x (encodeBytes q.pfx) = .lt := cmp_lt_of_lt_of_le h1.2 hle
+    have h4 := h2.1
+    rw [cmp_swap x (encodeBytes q.pfx), h3] at h4
+    simp [Ordering.swap] at h4
+  have hvne : a.pfxVal ≠ b.pfxVal := fun h => hne (pfxVal_inj ha hb h)
+  rcases Nat.lt_or_gt_of_ne hvne with hlt | hgt
+  · exact sep a b ha hlt
+  · intro h; exact sep b a hb hgt ⟨h.2, h.1⟩
+
+/-! ## range mapping at full strength -/
+
+/-- among well-formed keys, `[prefix, endKey)` is EXACTLY the keyspace: nothing foreign inside, nothing own outside -/
+theorem keyspace_interval_exact (ks : Keyspace) (hv : ks.valid = true) (x : Bytes) (hx : Gen.keyspacePrefixLen ≤ x.length) :
+    inInterval x ks.pfx ks.endKey = true ↔ ∃ k, x = encodeKey ks k := by
+  rw [Lemmas.keyspace_interval_exact ks hv x hx]
+  constructor
+  · intro hp; exact ⟨_, isPrefix_eq_append hp⟩
+  · rintro ⟨k, rfl⟩; exact isPrefix_append _ _
+
+/-- `encodeRange` with an empty end: the encoded end is the keyspace end, forward and (empty start) reverse, and the
+    resulting interval is the whole rest of the keyspace from `s` on — no key of the keyspace ≥ s is missed -/
+theorem encode_range_empty_end (ks : Keyspace) (hv : ks.valid = true) (s : Bytes) :
+    (encodeRange ks s [] false).2 = ks.endKey ∧ (encodeRange ks [] s true).1 = ks.endKey ∧
+    (∀ k, inInterval (encodeKey ks k) (encodeRange ks s [] false).1 (encodeRange ks s [] false).2 = Bytes.le s k) := by
+  refine ⟨rfl, rfl, ?_⟩
+  intro k
+  rw [encode_order_iso_range ks hv k s []]
+  simp [inRange]
+
+/-- what `decodeRange` returns when it accepts, bound by bound: a region start at or before the keyspace start is
+    clamped to "from the beginning" (`[]`), one inside is stripped; a region end that is unbounded or at/after the
+    keyspace end is clamped to "unbounded" (`[]`), one inside is stripped (and is never empty) -/
+theorem decode_range_clamps (ks : Keyspace) (hv : ks.valid = true) (rs re s e : Bytes)
+    (h : decodeRange ks rs re = .ok (s, e)) :
+    (Bytes.le rs ks.pfx = true → s = []) ∧
+    (Bytes.lt ks.pfx rs = true → Gen.keyspacePrefixLen ≤ rs.length → rs = encodeKey ks s ∧ s ≠ []) ∧
+    ((re = [] ∨ Bytes.le ks.endKey re = true) → e = []) ∧
+    (Bytes.lt re ks.endKey = true → Gen.keyspacePrefixLen ≤ re.length → re ≠ [] → re = encodeKey ks e ∧ e ≠ []) := by
+  unfold decodeRange at h
+  split at h
+  · cases h
+  · rename_i hc
+    simp only [Bool.or_eq_true, bne_iff_ne, Bool.and_eq_true, Bool.not_eq_true', ne_eq, not_or, Decidable.not_not,
+      not_and] at hc
+    obtain ⟨hltE, hre⟩ := hc
+    simp only [Except.ok.injEq, Prod.mk.injEq] at h
+    obtain ⟨hs, he⟩ := h
+    refine ⟨?_, ?_, ?_, ?_⟩
+    · intro hle
+      cases hp : Bytes.isPrefix ks.pfx rs with
+      | false => simpa [hp] using hs.symm
+      | true =>
+        have hx := isPrefix_eq_append hp
+        simp only [hp, if_true] at hs
+        -- rs = pfx ++ s and rs ≤ pfx force s = []
+        rw [hx] at hle
+        have := cmp_append_left ks.pfx (rs.drop ks.pfx.length) []
+        simp only [List.append_nil] at this
+        simp only [Bytes.le, this, bne_iff_ne] at hle
+        rw [← hs]
+        cases hd : rs.drop ks.pfx.length with
+        | nil => rfl
+        | cons c cs => rw [hd] at hle; simp [Bytes.cmp] at hle
+    · intro hlt hlen
+      have hp : Bytes.isPrefix ks.pfx rs = true := by
+        cases hp : Bytes.isPrefix ks.pfx rs with
+        | true => rfl
+        | false =>
+          exfalso
+          have := long_lt_pfx ks hv hlen hltE hp
+          simp only [Bytes.lt, beq_iff_eq] at hlt
+          rw [cmp_swap rs ks.pfx, this] at hlt
+          simp [Ordering.swap] at hlt
+      have hx := isPrefix_eq_append hp
+      simp only [hp, if_true] at hs
+      refine ⟨by rw [← hs]; exact hx, ?_⟩
+      intro hnil
+      rw [← hs] at hnil
+      rw [hnil, List.append_nil] at hx
+      simp only [Bytes.lt, beq_iff_eq] at hlt
+      rw [hx, cmp_refl] at hlt
+      cases hlt
+    · intro hcase
+      cases hp : Bytes.isPrefix ks.pfx re with
+      | false => simpa [hp] using he.symm
+      | true =>
+        exfalso
+        have hx := isPrefix_eq_append hp
+        rcases hcase with h0 | hge
+        · subst h0
+          have := Cat.isPrefix_nil_false ks
+          rw [this] at hp; cases hp
+        · have hlt := enc_lt_end ks hv (re.drop ks.pfx.length)
+          rw [← hx] at hlt
+          simp only [Bytes.le, bne_iff_ne] at hge
+          rw [cmp_swap re ks.endKey, hlt] at hge
+          simp [Ordering.swap] at hge
+    · intro hlt hlen hne
+      have hne' : re.isEmpty = false := Cat.isEmpty_false_of_ne hne
+      have hgt := hre hne'
+      have hp : Bytes.isPrefix ks.pfx re = true := by
+        cases hp : Bytes.isPrefix ks.pfx re with
+        | true => rfl
+        | false =>
+          exfalso
+          simp only [Bytes.lt, beq_iff_eq] at hlt
+          have := long_lt_pfx ks hv hlen hlt hp
+          rw [this] at hgt
+          cases hgt
+      have hx := isPrefix_eq_append hp
+      simp only [hp, if_true] at he
+      refine ⟨by rw [← he]; exact hx, ?_⟩
+      intro hnil
+      rw [← he] at hnil
+      rw [hnil, List.append_nil] at hx
+      rw [hx, cmp_refl] at hgt
+      cases hgt
+
+example : decodeRange ⟨.txn, 7⟩ [120, 0, 0, 6, 9] [120, 0, 0, 7, 5] = .ok ([], [5]) := by rfl
+
+/-- the same clipping one level up, for regions as PD / TiKV report them (memcomparable bounds, empty = unbounded):
+    `DecodeRegionRange` accepts / rejects like `DecodeRange` on the decoded bounds and, when it accepts, the decoded
+    logical range is exactly the set of keys of this keyspace whose REGION KEY lies in the reported region -/
+theorem decode_region_range_clips (ks : Keyspace) (hv : ks.valid = true) (rs re : Bytes)
+    (hrs : rs = [] ∨ Gen.keyspacePrefixLen ≤ rs.length) :
+    decodeRegionRange ks (encRegionBound rs) (encRegionBound re) = decodeRange ks rs re ∧
+    (decodeRegionRange ks (encRegionBound rs) (encRegionBound re) = .error .outOfBound →
+        ∀ k, inRegion (encodeRegionKey ks k) (encRegionBound rs) (encRegionBound re) = false) ∧
+    (∀ s e, decodeRegionRange ks (encRegionBound rs) (encRegionBound re) = .ok (s, e) →
+        ∀ k, inRange k s e = inRegion (encodeRegionKey ks k) (encRegionBound rs) (encRegionBound re)) := by
+  have hc := Cat.decodeRegionRange_canonical ks rs re
+  obtain ⟨_, h2, h3, _⟩ := decode_range_clips ks hv rs re hrs
+  refine ⟨hc, ?_, ?_⟩
+  · intro herr k
+    rw [hc] at herr
+    simpa [encodeRegionKey, Cat.inRegion_canonical] using h2 herr k
+  · intro s e hok k
+    rw [hc] at hok
+    simpa [encodeRegionKey, Cat.inRegion_canonical] using h3 s e hok k
+
+/-- the unrestricted form of `decode_range_clips` (no hypothesis on the region start) — FALSE, see below -/
+def decode_range_clips_full : Prop :=
+  ∀ (ks : Keyspace), ks.valid = true → ∀ rs re s e, decodeRange ks rs re = .ok (s, e) →
+    ∀ k, inRange k s e = inRegion (encodeKey ks k) rs re
+
+/-- the hypothesis of `decode_range_clips` cannot be dropped: the model (and, by the `decrange` differential, the Go
+    code) accepts the region `[x 00 01, +∞)` for keyspace 255 and decodes it to the whole keyspace although the
+    region contains none of its keys.  Such a start is shorter than `keyspacePrefixLen`, i.e. not an API-v2 key. -/
+theorem decode_range_clips_full_refuted : ¬ decode_range_clips_full := by
+  intro h
+  have := h ⟨.txn, 255⟩ (by decide) [120, 0, 1] [] [] [] (by rfl) [5]
+  revert this
+  decide
 
 /-- non-vacuity of the `valid` hypothesis used throughout (largest id, both modes) -/
 example : (⟨.raw, 16777215⟩ : Keyspace).valid = true ∧ (⟨.txn, 0⟩ : Keyspace).valid = true := by decide
@@ -395,5 +611,211 @@ example : Gen.cmdRows.length ≥ 40 ∧ (Gen.fieldRows.any fun r => r.side == .r
     ∧ (Gen.fieldRows.any fun r => r.side == .resp && r.fmt == .region && r.ok) = true
     ∧ (Gen.fieldRows.any fun r => r.side == .resp && r.fmt == .plain && r.ok) = true := by
   refine ⟨by decide +kernel, by decide +kernel, by decide +kernel, by decide +kernel⟩
+
+/-! ## every catalogue row, every key, every keyspace: transparency and isolation through the field walker
+
+  `FieldRow.action` (Model/ApiV2Fields.lean) is the codec's action on one key in a field, determined by the row's
+  OBSERVED classification.  The lemmas of Proofs/ApiV2Fields.lean hold for any row satisfying the rule; here they
+  are lifted over the regenerated table: a row that is in the catalogue and is not a known finding satisfies the
+  rule (`all_key_fields_encoded`), hence the statements hold for it for ALL keys and ALL keyspace ids. -/
+
+theorem catalogue_row_ok {r : FieldRow} (hm : r ∈ Gen.fieldRows) (hk : r.known = false) : r.ok = true := by
+  have h := (List.all_eq_true.mp all_key_fields_encoded.2) r hm
+  simpa [hk] using h
+
+/-- transparency: a key (or list of keys) sent through ANY request field of the catalogue and echoed back through
+    ANY plain response field (pairs, lock infos, key errors, …) reaches the caller unchanged — decode ∘ encode = id
+    on user keys, for every keyspace and every non-empty key -/
+theorem catalogue_fields_roundtrip (rq rp : FieldRow) (hq : rq ∈ Gen.fieldRows) (hp : rp ∈ Gen.fieldRows)
+    (hqs : rq.side = .req) (hqk : rq.known = false) (hps : rp.side = .resp) (hpf : rp.fmt = .plain)
+    (hpk : rp.known = false) (ks : Keyspace) :
+    (∀ k, k ≠ [] → echo ks ks rq rp k = .ok k) ∧
+    (∀ l : List Bytes, (∀ k ∈ l, k ≠ []) → echoAll ks ks rq rp l = .ok l) :=
+  ⟨fun _ hk => echo_same hqs (catalogue_row_ok hq hqk) hps hpf (catalogue_row_ok hp hpk) ks hk,
+   fun l hl => echoAll_same hqs (catalogue_row_ok hq hqk) hps hpf (catalogue_row_ok hp hpk) ks l hl⟩
+
+/-- isolation: a key written through any request field by a client of keyspace `a` is REJECTED (`errKeyOutOfBound`)
+    by every plain response field of a client of a different keyspace or mode `b` — never delivered, for all ids
+    `0 … 2^24-1`; and whatever a response field does deliver is a key that carried exactly this keyspace's prefix -/
+theorem catalogue_fields_isolated (rq rp : FieldRow) (hq : rq ∈ Gen.fieldRows) (hp : rp ∈ Gen.fieldRows)
+    (hqs : rq.side = .req) (hqk : rq.known = false) (hps : rp.side = .resp) (hpf : rp.fmt = .plain)
+    (hpk : rp.known = false) (a b : Keyspace) (ha : a.valid = true) (hb : b.valid = true) (hne : a ≠ b) :
+    (∀ k, k ≠ [] → echo a b rq rp k = .error .outOfBound) ∧
+    (∀ l : List Bytes, (∀ k ∈ l, k ≠ []) → l ≠ [] → echoAll a b rq rp l = .error .outOfBound) ∧
+    (∀ x k, x ≠ [] → rp.action b x = .ok k → x = encodeKey b k ∧ x ≠ encodeKey a k) := by
+  have hqo := catalogue_row_ok hq hqk
+  have hpo := catalogue_row_ok hp hpk
+  refine ⟨fun _ hk => echo_foreign hqs hqo hps hpf hpo ha hb hne hk,
+          fun l hl hn => echoAll_foreign hqs hqo hps hpf hpo ha hb hne l hl hn, ?_⟩
+  intro x k hx h
+  have h1 := resp_action_sound hps hpf hpo b hx h
+  exact ⟨h1, by rw [h1]; exact fun h2 => encodeKey_ne_foreign ha hb hne k k h2.symm⟩
+
+/-- what any catalogue request field puts on the wire: the prefixed key for a non-empty key; for an empty key the
+    keyspace end (range end), the keyspace prefix (range start — never the global start), the prefix or "unset"
+    (plain key); in every case a non-empty wire value lies inside `[prefix, endKey]` of the client's keyspace -/
+theorem catalogue_request_fields_bounded (rq : FieldRow) (hq : rq ∈ Gen.fieldRows) (hqs : rq.side = .req)
+    (hqk : rq.known = false) (ks : Keyspace) (hv : ks.valid = true) :
+    (∀ k, k ≠ [] → rq.action ks k = .ok (encodeKey ks k)) ∧
+    (rq.role = .end_ → rq.action ks [] = .ok ks.endKey) ∧
+    (rq.role = .start → rq.action ks [] = .ok ks.pfx) ∧
+    (rq.role = .key → rq.action ks [] = .ok ks.pfx ∨ rq.action ks [] = .ok []) ∧
+    (∀ k w, rq.action ks k = .ok w → w ≠ [] →
+      Bytes.le ks.pfx w = true ∧ Bytes.le w ks.endKey = true ∧ (k ≠ [] → Bytes.lt w ks.endKey = true)) := by
+  have hqo := catalogue_row_ok hq hqk
+  obtain ⟨h1, h2, h3⟩ := req_action_empty hqs hqo ks
+  exact ⟨fun _ hk => req_action_nonempty hqs hqo ks hk, h1, h2, h3,
+         fun k w h hw => req_action_within_bounds hqs hqo ks hv k w h hw⟩
+
+/-- region descriptions (region errors, split results): every catalogue field in region format returns the user's
+    bound for a region bound of this keyspace, and a bound it delivers non-empty always was (the memcomparable form
+    of) a key of THIS keyspace — a foreign bound is clipped to "unbounded" or the region rejected -/
+theorem catalogue_region_fields (rp : FieldRow) (hp : rp ∈ Gen.fieldRows) (hps : rp.side = .resp)
+    (hpf : rp.fmt = .region) (hpk : rp.known = false) (ks : Keyspace) (hv : ks.valid = true) :
+    (rp.role = .start → ∀ k, rp.action ks (encodeRegionKey ks k) = .ok k) ∧
+    (rp.role = .end_ → ∀ k, k ≠ [] → rp.action ks (encodeRegionKey ks k) = .ok k) ∧
+    (∀ x k, rp.action ks x = .ok k → k ≠ [] → memDecode x = .ok (encodeKey ks k)) := by
+  have hpo := catalogue_row_ok hp hpk
+  exact ⟨fun hr k => resp_region_start hps hpf hpo hr ks hv k,
+         fun hr k hk => resp_region_end hps hpf hpo hr ks k hk,
+         fun x k h hk => resp_region_sound hps hpf hpo ks h hk⟩
+
+/-- non-vacuity of the lifted theorems: the table contains unwaived request rows of each role, plain response rows
+    and region-format response rows of both roles -/
+example :
+    (Gen.fieldRows.any fun r => r.side == .req && !r.known && r.role == .key) = true ∧
+    (Gen.fieldRows.any fun r => r.side == .req && !r.known && r.role == .start) = true ∧
+    (Gen.fieldRows.any fun r => r.side == .req && !r.known && r.role == .end_) = true ∧
+    (Gen.fieldRows.any fun r => r.side == .resp && !r.known && r.fmt == .plain) = true ∧
+    (Gen.fieldRows.any fun r => r.side == .resp && !r.known && r.fmt == .region && r.role == .start) = true ∧
+    (Gen.fieldRows.any fun r => r.side == .resp && !r.known && r.fmt == .region && r.role == .end_) = true := by
+  refine ⟨by decide +kernel, by decide +kernel, by decide +kernel, by decide +kernel, by decide +kernel, by decide +kernel⟩
+
+/-! ## end to end against an abstract shared store: the keyspace client behaves like the unprefixed client on its
+    own view and cannot touch another keyspace's view -/
+
+/-- Put / Delete: the client's own view changes exactly like the logical map (Get is `view` itself) -/
+theorem keyspace_point_ops_transparent (ks : Keyspace) (σ : KvMap) (k v : Bytes) :
+    view ks (ksPut ks σ k v) = (view ks σ).put k v ∧ view ks (ksDelete ks σ k) = (view ks σ).del k := by
+  constructor <;> funext y <;> simp only [view, ksPut, ksDelete, KvMap.put, KvMap.del]
+  · by_cases h : y = k
+    · simp [h]
+    · have : encodeKey ks y ≠ encodeKey ks k := fun he => h (encodeKey_inj ks he)
+      simp [h, this]
+  · by_cases h : y = k
+    · simp [h]
+    · have : encodeKey ks y ≠ encodeKey ks k := fun he => h (encodeKey_inj ks he)
+      simp [h, this]
+
+/-- DeleteRange `[s, e)` (empty `e` = unbounded) through the codec deletes exactly the logical range from the
+    client's own view -/
+theorem keyspace_delete_range_transparent (ks : Keyspace) (hv : ks.valid = true) (σ : KvMap) (s e : Bytes) :
+    view ks (ksDeleteRange ks σ s e) = (view ks σ).delRange s e := by
+  funext k
+  simp only [view, ksDeleteRange, KvMap.delInterval, KvMap.delRange, encode_order_iso_range ks hv k s e]
+
+/-- no operation of a client of keyspace `a` — point write, delete, bounded or UNBOUNDED range delete — changes
+    anything a client of another keyspace or mode `b` can observe -/
+theorem keyspace_ops_isolated (a b : Keyspace) (ha : a.valid = true) (hb : b.valid = true) (hne : a ≠ b)
+    (σ : KvMap) (k v s e : Bytes) :
+    view b (ksPut a σ k v) = view b σ ∧ view b (ksDelete a σ k) = view b σ ∧
+    view b (ksDeleteRange a σ s e) = view b σ := by
+  refine ⟨?_, ?_, ?_⟩ <;> funext y <;> simp only [view, ksPut, ksDelete, ksDeleteRange, KvMap.put, KvMap.del, KvMap.delInterval]
+  · simp [encodeKey_ne_foreign hb ha (Ne.symm hne) y k]
+  · simp [encodeKey_ne_foreign hb ha (Ne.symm hne) y k]
+  · have hno : inInterval (encodeKey b y) (encodeRange a s e false).1 (encodeRange a s e false).2 = false := by
+      cases hi : inInterval (encodeKey b y) (encodeRange a s e false).1 (encodeRange a s e false).2 with
+      | false => rfl
+      | true =>
+        exfalso
+        have h1 := encode_range_within_bounds a ha (encodeKey b y) s e false (by simpa using hi)
+        have h2 : inInterval (encodeKey b y) b.pfx b.endKey = true := by
+          simp only [inInterval, Bool.and_eq_true, Bytes.le, Bytes.lt, bne_iff_ne, beq_iff_eq, encodeKey]
+          exact ⟨pfx_le_enc b y, enc_lt_end b hb y⟩
+        exact (keyspaces_disjoint a b ha hb hne).1 _ ⟨h1, h2⟩
+    simp [hno]
+
+/-- Scan: over a store holding only well-formed keys, the physical entries inside the encoded range are exactly
+    the prefixed images of the logical entries inside the logical range — nothing foreign is returned, nothing own
+    is missed; each returned key decodes to its logical key -/
+theorem keyspace_scan_transparent (ks : Keyspace) (hv : ks.valid = true) (σ : KvMap) (hwf : σ.wellFormed)
+    (s e x v : Bytes) :
+    (σ x = some v ∧ inInterval x (encodeRange ks s e false).1 (encodeRange ks s e false).2 = true) ↔
+    ∃ k, x = encodeKey ks k ∧ decodeKey ks x = .ok k ∧ inRange k s e = true ∧ view ks σ k = some v := by
+  constructor
+  · rintro ⟨hx, hi⟩
+    have hlen : Gen.keyspacePrefixLen ≤ x.length := hwf x (by rw [hx]; simp)
+    obtain ⟨k, rfl, hk⟩ := encode_range_within_keyspace ks hv x s e hlen hi
+    exact ⟨k, rfl, decode_encode_key ks k, hk, hx⟩
+  · rintro ⟨k, rfl, _, hk, hvw⟩
+    exact ⟨hvw, by rw [encode_order_iso_range ks hv k s e]; exact hk⟩
+
+example : KvMap.wellFormed (fun _ => none) := by intro x h; exact absurd rfl h
+
+/-- reverse Scan (request start = exclusive upper bound, empty = keyspace end; request end = inclusive lower bound,
+    empty = keyspace start): same statement for the swapped pair the codec sends -/
+theorem keyspace_reverse_scan_transparent (ks : Keyspace) (hv : ks.valid = true) (σ : KvMap) (hwf : σ.wellFormed)
+    (s e x v : Bytes) :
+    (σ x = some v ∧ inInterval x (encodeRange ks s e true).2 (encodeRange ks s e true).1 = true) ↔
+    ∃ k, x = encodeKey ks k ∧ decodeKey ks x = .ok k ∧ inRangeRev k s e = true ∧ view ks σ k = some v := by
+  have h := keyspace_scan_transparent ks hv σ hwf e s x v
+  have hr : (encodeRange ks s e true).2 = (encodeRange ks e s false).1 ∧
+      (encodeRange ks s e true).1 = (encodeRange ks e s false).2 := ⟨rfl, rfl⟩
+  rw [hr.1, hr.2]
+  exact h
+
+/-- the `EpochNotMatch.CurrentRegions` loop of `decodeRegionError`: the result is exactly the list of regions that
+    `DecodeRegionRange` accepts, each replaced by its clipped logical range (`decode_region_range_clips`), in order;
+    regions outside the keyspace are dropped; only an undecodable bound fails the response -/
+theorem decode_regions_spec (ks : Keyspace) (l : List (Bytes × Bytes)) :
+    ((∀ p ∈ l, decodeRegionRange ks p.1 p.2 ≠ .error .decode) →
+      decodeRegions ks l = .ok (l.filterMap fun p =>
+        match decodeRegionRange ks p.1 p.2 with
+        | .ok r => some r
+        | .error _ => none)) ∧
+    ((∃ p ∈ l, decodeRegionRange ks p.1 p.2 = .error .decode) → decodeRegions ks l = .error .decode) := by
+  induction l with
+  | nil => exact ⟨fun _ => rfl, fun ⟨p, hp, _⟩ => by simp at hp⟩
+  | cons p rest ih =>
+    obtain ⟨s, e⟩ := p
+    constructor
+    · intro h
+      have hrest := ih.1 (fun q hq => h q (by simp [hq]))
+      have hp := h (s, e) (by simp)
+      simp only at hp
+      cases hd : decodeRegionRange ks s e with
+      | ok r => simp [decodeRegions, hd, hrest, Except.map]
+      | error x =>
+        cases x with
+        | decode => exact absurd hd hp
+        | outOfBound => simp [decodeRegions, hd, hrest]
+    · rintro ⟨q, hq, hqe⟩
+      cases hd : decodeRegionRange ks s e with
+      | error x =>
+        cases x with
+        | decode => simp [decodeRegions, hd]
+        | outOfBound =>
+          have hq' : q ∈ rest := by
+            rcases List.mem_cons.mp hq with rfl | h
+            · simp only at hqe; rw [hd] at hqe; cases hqe
+            · exact h
+          simp [decodeRegions, hd, ih.2 ⟨q, hq', hqe⟩]
+      | ok r =>
+        have hq' : q ∈ rest := by
+          rcases List.mem_cons.mp hq with rfl | h
+          · simp only at hqe; rw [hd] at hqe; cases hqe
+          · exact h
+        simp [decodeRegions, hd, ih.2 ⟨q, hq', hqe⟩, Except.map]
+
+example : decodeRegions ⟨.txn, 7⟩ [([], [])] = .ok [([], [])] := by rfl
+
+/-- region buckets (`DecodeBucketKeys`): every non-empty bucket key handed to the region cache is the stripped form
+    of an input key that carried THIS keyspace's prefix; foreign or out-of-keyspace boundaries only ever appear as
+    the empty (open) first / last bucket key or are dropped -/
+theorem decode_bucket_keys_sound (ks : Keyspace) (keys out : List Bytes) (h : decodeBucketKeys ks keys = .ok out) :
+    ∀ o ∈ out, o ≠ [] → ∃ key ∈ keys, memDecode key = .ok (encodeKey ks o) :=
+  decodeBucketKeys_sound ks keys out h
+
+example : decodeBucketKeys ⟨.txn, 7⟩ [[], []] = .ok [[], []] := by rfl
 
 end CGV.Props.C15
